@@ -107,12 +107,14 @@ class DeleteNode(BasicAction):
         self.tracks: SolutionTracks  # Narrow type from base class
         self.node = node
 
-        # Save all node feature values from the features dict
-        self.attributes = {}
-        for key in self.tracks.features.node_features:
-            val = self.tracks.get_node_attr(node, key)
-            if val is not None:
-                self.attributes[key] = val
+        # Save every attribute the node carries, not only the registered features: the
+        # inverse must also bring back user-set attributes that are no features and the
+        # values of features that are currently disabled
+        self.attributes = {
+            key: val
+            for key, val in self.tracks.graph.nodes[node].items()
+            if val is not None
+        }
 
         self.pixels = self.tracks.get_pixels(node) if pixels is None else pixels
         self._apply()
